@@ -19,8 +19,10 @@ def expected_survivors(gg, pre, tags):
     """closure of the tagged manifests; artifacts are retained when their subject is retained, or when the subject does
     not exist at all (dangling referrers are kept under this policy)"""
     R, RM = set(), set()
+    W = set()       # digests listed by a retained index under a media type that is not a manifest type: kept as blobs, and
+                    # (being entries of the walk) subjects that remain as far as the referrers policy goes
     for t, d in tags.items():
-        r1, r2 = c05.retained(gg, dict(pre, refs={}), [d])
+        r1, r2 = c05.retained(gg, dict(pre, refs={}), [d], W)
         R |= r1
         RM |= r2
     changed = True
@@ -33,8 +35,8 @@ def expected_survivors(gg, pre, tags):
             # the artifact must still be recorded (listed under its subject) to be found at all
             if a not in pre["refs"].get(s, []):
                 continue
-            if (s in RM and pre["blob"].get(s) == 200) or pre["blob"].get(s) != 200:
-                r1, r2 = c05.retained(gg, dict(pre, refs={}), [a])
+            if ((s in RM or s in W) and pre["blob"].get(s) == 200) or pre["blob"].get(s) != 200:
+                r1, r2 = c05.retained(gg, dict(pre, refs={}), [a], W)
                 R |= r1
                 RM |= r2
                 changed = True
